@@ -92,7 +92,17 @@ def doc (cfg : Cfg) (s : St) : Op → Doc
   | .spSubspan off count =>
     ⟨[(SP.kSubOff, off ≤ s.size), (SP.kSubCnt, count = SP.dyn ∨ off + count ≤ s.size)], fun _ =>
      if count = SP.dyn then s.elems.drop off else (s.elems.drop off).take count, fun _ => s⟩
-  | .arAt k i => ⟨if cfg.safe then [(AR.kAt k, i < s.size)] else [], fun _ => elemAt s.elems i, fun _ => s⟩
+  | .spFirstT n => ⟨[(SP.kFirstT, n ≤ s.size)], fun _ => s.elems.take n, fun _ => s⟩
+  | .spLastT n => ⟨[(SP.kLastT, n ≤ s.size)], fun _ => s.elems.drop (s.size - n), fun _ => s⟩
+  | .spSubspanT off count =>
+    ⟨[(SP.kSubOffT, off ≤ s.size), (SP.kSubCntT, count = SP.dyn ∨ off + count ≤ s.size)], fun _ =>
+     if count = SP.dyn then s.elems.drop off else (s.elems.drop off).take count, fun _ => s⟩
+  -- [span.cons]: a span of static extent is constructed over exactly `extent` elements
+  | .spCtorExt k ext => ⟨[(SP.kCtorExt k, ext = SP.dyn ∨ s.size = ext)], fun _ => s.elems, fun _ => s⟩
+  | .arAt k i => ⟨if s.size = 0 then [(AR.kAtZ k, false)] else if cfg.safe then [(AR.kAt k, i < s.size)] else [],
+      fun _ => elemAt s.elems i, fun _ => s⟩
+  | .arFront k => ⟨[(AR.kFront k, s.size ≠ 0)], fun _ => elemAt s.elems 0, fun _ => s⟩
+  | .arBack k => ⟨[(AR.kBack k, s.size ≠ 0)], fun _ => lastOf s.elems, fun _ => s⟩
   | .strCtorPtr xs len => ⟨[(STR.kCtorPtr, len ≤ s.cap)], fun _ => [], fun _ => withElems s (xs.take len)⟩
   | .strCtorFill n ch => ⟨[(STR.kCtorFill, n ≤ s.cap)], fun _ => [], fun _ => withElems s (List.replicate n ch)⟩
   | .strOpAssign xs => ⟨[(STR.kOpAsg, xs.length ≤ s.cap)], fun _ => [], fun _ => withElems s xs⟩
@@ -113,6 +123,12 @@ def doc (cfg : Cfg) (s : St) : Op → Doc
   | .strReplaceSub pos count src pos2 count2 =>
     ⟨[(STR.kReplPos 1, pos ≤ s.size), (STR.kReplPos2, pos2 ≤ src.length)], fun _ => [], fun _ =>
      withElems s (overwriteAt s.elems pos (((src.drop pos2).take count2).take (min count (s.size - pos))))⟩
+  -- insert(index, ...): `index <= size()` (std: out_of_range otherwise); the inserted units fit (see `WF`)
+  | .strInsert k index xs => ⟨[(STR.kInsert k, index ≤ s.size)], fun _ => [], fun _ => withElems s (insertAt s.elems index xs)⟩
+  | .strInsertFill index count ch =>
+    ⟨[(STR.kInsert 0, index ≤ s.size)], fun _ => [], fun _ => withElems s (insertAt s.elems index (List.replicate count ch))⟩
+  | .strEraseIdx index count =>
+    ⟨[(STR.kEraseIdx, index ≤ s.size)], fun _ => [], fun _ => withElems s (eraseRange s.elems index (index + min count (s.size - index)))⟩
   | .optDeref k => ⟨[(OEV.kOpt k, s.size ≠ 0)], fun _ => elemAt s.elems 0, fun _ => s⟩
   | .expDeref k => ⟨[(OEV.kExp k, s.alt = 0)], fun _ => elemAt s.elems 0, fun _ => s⟩
   | .expError k => ⟨[(OEV.kErr k, s.alt ≠ 0)], fun _ => elemAt s.elems 0, fun _ => s⟩
@@ -122,9 +138,11 @@ def doc (cfg : Cfg) (s : St) : Op → Doc
   | .bs which pos v => ⟨[(bsKey which, pos < s.size)], fun _ => bsResult s which pos, fun _ => bsPost s which pos v⟩
   | .bsCtor pos n bits => ⟨[(BS.kCtor, pos ≤ s.size)], fun _ => ((s.elems.drop pos).take n).take bits, fun _ => s⟩
   | .bit which w pos => ⟨[(SC.kBit (SC.bitFns.getD which "test_bit") (if which == 3 then 1 else 0), pos < w)], fun _ => [], fun _ => s⟩
-  | .divSat y => ⟨[(SC.kDiv, y ≠ 0)], fun _ => [], fun _ => s⟩
-  | .dayCtor d => ⟨[(SC.kDay, d < 255)], fun _ => [], fun _ => withElems s [(d : Int)]⟩
-  | .monthCtor m => ⟨[(SC.kMonth, m < 255)], fun _ => [], fun _ => withElems s [(m : Int)]⟩
+  -- [numeric.sat]: `y != 0`; the mathematical quotient (truncated), saturated to the range of `int`
+  | .divSat x y => ⟨[(SC.kDiv, y ≠ 0)], fun _ => [max SC.I32min (min SC.I32max (Int.tdiv x y))], fun _ => s⟩
+  -- day.hpp / month.hpp: "may hold any number in [0, 255]" ([time.cal.day] / [time.cal.month]: the value is unspecified beyond)
+  | .dayCtor d => ⟨[(SC.kDay, d ≤ 255)], fun _ => [], fun _ => withElems s [(d : Int)]⟩
+  | .monthCtor m => ⟨[(SC.kMonth, m ≤ 255)], fun _ => [], fun _ => withElems s [(m : Int)]⟩
   | .stride l r => ⟨[(SC.kStride l, r < s.size)], fun _ => elemAt s.elems r, fun _ => s⟩
   | .nullChecks ks => ⟨ks, fun _ => [], fun _ => s⟩
   | .setCtor n o => ⟨[(SC.kSetOrd, o), (SC.kSetFit, n ≤ s.cap)], fun _ => [], fun _ => s⟩
